@@ -570,7 +570,7 @@ func gateII(p *propDef, seed uint64) {
 		go func() {
 			defer func() { <-sem }()
 			it := items[i]
-			q1, _ := json.Marshal(map[string]interface{}{"op": it.op, "zone_offset_s": it.zone})
+			q1, _ := json.Marshal(map[string]interface{}{"op": it.op, "zone_offset_s": it.zone, "zone": it.clk.Zone})
 			a, err := pipe(plain, q1)
 			if err == errTimeout {
 				// the plain tree hangs on this operation: not the instrumenter's doing; the runs will judge it
